@@ -354,13 +354,15 @@ theorem decAnyMembers_np (c : Cfg) (hc : c.env.itemsOk = true) (ftype : Option B
             · exact NP_ok _
             · split
               · exact NP_err _
-              · rename_i root hres
-                have := decRootTree_np c hc root v
-                intro w
-                split
-                · simp
-                · simp
-                · rename_i w' heq; exact absurd heq (this w')
+              · split
+                · exact NP_err _
+                · rename_i root hres
+                  have := decRootTree_np { c with anyDepth := c.anyDepth + 1 } hc root v
+                  intro w
+                  split
+                  · simp
+                  · simp
+                  · rename_i w' heq; exact absurd heq (this w')
 termination_by sizeOf ms
 
 theorem decElems_np (c : Cfg) (hc : c.env.itemsOk = true) (item : Field) (xs : PElems)
